@@ -19,12 +19,19 @@ import PS.Generated.FieldTable
 namespace PS
 
 /-- the field constraints the validation model assumes (`taskFieldsValid`, `stepWorker`,
-    `stepCumulative`, `stepSelect`, `stepProblem`, `State.resolve`) -/
+    `stepCumulative`, `stepSelect`, `stepProblem`, `State.resolve`), for **every** pydantic model class the package
+    exports: numeric bounds, minimal lengths, the words each `Literal` field accepts (kinds, modes, optimiser
+    options) and `extra = forbid` -/
 def expectedFieldTable : List (String × String × String × Int) := [
+  ("And", "__extra__", "extra:forbid", 0),
   ("ConcurrentBuffer", "__extra__", "extra:forbid", 0),
+  ("ConstantFunction", "__extra__", "extra:forbid", 0),
+  ("Constraint", "__extra__", "extra:forbid", 0),
+  ("ConstraintFromExpression", "__extra__", "extra:forbid", 0),
   ("CumulativeWorker", "__extra__", "extra:forbid", 0),
   ("CumulativeWorker", "productivity", "gt", 0),
   ("CumulativeWorker", "size", "gt", 1),
+  ("DistinctWorkers", "__extra__", "extra:forbid", 0),
   ("FixedDurationTask", "__extra__", "extra:forbid", 0),
   ("FixedDurationTask", "duration", "gt", 0),
   ("FixedDurationTask", "priority", "ge", 0),
@@ -35,33 +42,122 @@ def expectedFieldTable : List (String × String × String × Int) := [
   ("ForceScheduleNOptionalTasks", "__extra__", "extra:forbid", 0),
   ("ForceScheduleNOptionalTasks", "kind", "lit:min|max|exact", 0),
   ("ForceScheduleNOptionalTasks", "nb_tasks_to_schedule", "gt", 0),
+  ("GeneralFunction", "__extra__", "extra:forbid", 0),
+  ("IfThenElse", "__extra__", "extra:forbid", 0),
+  ("Implies", "__extra__", "extra:forbid", 0),
+  ("Indicator", "__extra__", "extra:forbid", 0),
+  ("IndicatorBounds", "__extra__", "extra:forbid", 0),
+  ("IndicatorConstraint", "__extra__", "extra:forbid", 0),
+  ("IndicatorEarliness", "__extra__", "extra:forbid", 0),
+  ("IndicatorFromMathExpression", "__extra__", "extra:forbid", 0),
+  ("IndicatorMaxBufferLevel", "__extra__", "extra:forbid", 0),
+  ("IndicatorMaximumLateness", "__extra__", "extra:forbid", 0),
+  ("IndicatorMinBufferLevel", "__extra__", "extra:forbid", 0),
+  ("IndicatorNumberOfTardyTasks", "__extra__", "extra:forbid", 0),
+  ("IndicatorNumberTasksAssigned", "__extra__", "extra:forbid", 0),
+  ("IndicatorResourceCost", "__extra__", "extra:forbid", 0),
+  ("IndicatorResourceIdle", "__extra__", "extra:forbid", 0),
+  ("IndicatorResourceUtilization", "__extra__", "extra:forbid", 0),
+  ("IndicatorTardiness", "__extra__", "extra:forbid", 0),
+  ("IndicatorTarget", "__extra__", "extra:forbid", 0),
+  ("LinearFunction", "__extra__", "extra:forbid", 0),
+  ("NamedUIDObject", "__extra__", "extra:forbid", 0),
   ("NonConcurrentBuffer", "__extra__", "extra:forbid", 0),
+  ("Not", "__extra__", "extra:forbid", 0),
+  ("Objective", "__extra__", "extra:forbid", 0),
+  ("Objective", "kind", "lit:minimize|maximize", 0),
+  ("ObjectiveMaximizeIndicator", "__extra__", "extra:forbid", 0),
+  ("ObjectiveMaximizeIndicator", "kind", "lit:minimize|maximize", 0),
+  ("ObjectiveMaximizeMaxBufferLevel", "__extra__", "extra:forbid", 0),
+  ("ObjectiveMaximizeMaxBufferLevel", "kind", "lit:minimize|maximize", 0),
+  ("ObjectiveMaximizeResourceUtilization", "__extra__", "extra:forbid", 0),
+  ("ObjectiveMaximizeResourceUtilization", "kind", "lit:minimize|maximize", 0),
+  ("ObjectiveMinimizeFlowtime", "__extra__", "extra:forbid", 0),
+  ("ObjectiveMinimizeFlowtime", "kind", "lit:minimize|maximize", 0),
+  ("ObjectiveMinimizeFlowtimeSingleResource", "__extra__", "extra:forbid", 0),
+  ("ObjectiveMinimizeFlowtimeSingleResource", "kind", "lit:minimize|maximize", 0),
+  ("ObjectiveMinimizeGreatestStartTime", "__extra__", "extra:forbid", 0),
+  ("ObjectiveMinimizeGreatestStartTime", "kind", "lit:minimize|maximize", 0),
+  ("ObjectiveMinimizeIndicator", "__extra__", "extra:forbid", 0),
+  ("ObjectiveMinimizeIndicator", "kind", "lit:minimize|maximize", 0),
+  ("ObjectiveMinimizeMakespan", "__extra__", "extra:forbid", 0),
+  ("ObjectiveMinimizeMakespan", "kind", "lit:minimize|maximize", 0),
+  ("ObjectiveMinimizeMaxBufferLevel", "__extra__", "extra:forbid", 0),
+  ("ObjectiveMinimizeMaxBufferLevel", "kind", "lit:minimize|maximize", 0),
+  ("ObjectiveMinimizeResourceCost", "__extra__", "extra:forbid", 0),
+  ("ObjectiveMinimizeResourceCost", "kind", "lit:minimize|maximize", 0),
+  ("ObjectivePriorities", "__extra__", "extra:forbid", 0),
+  ("ObjectivePriorities", "kind", "lit:minimize|maximize", 0),
+  ("ObjectiveTasksStartEarliest", "__extra__", "extra:forbid", 0),
+  ("ObjectiveTasksStartEarliest", "kind", "lit:minimize|maximize", 0),
+  ("ObjectiveTasksStartLatest", "__extra__", "extra:forbid", 0),
+  ("ObjectiveTasksStartLatest", "kind", "lit:minimize|maximize", 0),
+  ("OptionalTaskConditionSchedule", "__extra__", "extra:forbid", 0),
+  ("OptionalTaskForceSchedule", "__extra__", "extra:forbid", 0),
+  ("OptionalTasksDependency", "__extra__", "extra:forbid", 0),
+  ("Or", "__extra__", "extra:forbid", 0),
+  ("OrderedTaskGroup", "__extra__", "extra:forbid", 0),
+  ("OrderedTaskGroup", "kind", "lit:lax|strict|tight", 0),
+  ("PolynomialFunction", "__extra__", "extra:forbid", 0),
+  ("ResourceConstraint", "__extra__", "extra:forbid", 0),
+  ("ResourceInterrupted", "__extra__", "extra:forbid", 0),
+  ("ResourceNonDelay", "__extra__", "extra:forbid", 0),
+  ("ResourcePeriodicallyInterrupted", "__extra__", "extra:forbid", 0),
+  ("ResourcePeriodicallyUnavailable", "__extra__", "extra:forbid", 0),
+  ("ResourceTasksDistance", "__extra__", "extra:forbid", 0),
+  ("ResourceTasksDistance", "mode", "lit:min|max|exact", 0),
+  ("ResourceUnavailable", "__extra__", "extra:forbid", 0),
+  ("SameWorkers", "__extra__", "extra:forbid", 0),
   ("ScheduleNTasksInTimeIntervals", "__extra__", "extra:forbid", 0),
   ("ScheduleNTasksInTimeIntervals", "kind", "lit:min|max|exact", 0),
   ("SchedulingProblem", "__extra__", "extra:forbid", 0),
   ("SchedulingProblem", "horizon", "gt", 0),
+  ("SchedulingSolver", "__extra__", "extra:forbid", 0),
+  ("SchedulingSolver", "logics", "lit:QF_LRA|HORN|QF_LIA|QF_RDL|QF_IDL|QF_AUFLIA|QF_ALIA|QF_AUFLIRA|QF_AUFNIA|QF_AUFNIRA|QF_ANIA|QF_LIRA|QF_UFLIA|QF_UFLRA|QF_UFIDL|QF_UFRDL|QF_NIRA|QF_UFNRA|QF_UFNIA|QF_UFNIRA|QF_S|QF_SLIA|UFIDL|QF_FPLRA", 0),
+  ("SchedulingSolver", "max_time", "gt", 0),
+  ("SchedulingSolver", "optimize_priority", "lit:pareto|lex|box|weight", 0),
+  ("SchedulingSolver", "optimizer", "lit:incremental|optimize", 0),
   ("SelectWorkers", "__extra__", "extra:forbid", 0),
   ("SelectWorkers", "kind", "lit:exact|min|max", 0),
   ("SelectWorkers", "list_of_workers", "minLen", 2),
   ("SelectWorkers", "nb_workers_to_select", "gt", 0),
+  ("TaskConstraint", "__extra__", "extra:forbid", 0),
+  ("TaskEndAt", "__extra__", "extra:forbid", 0),
+  ("TaskEndBefore", "__extra__", "extra:forbid", 0),
+  ("TaskEndBefore", "kind", "lit:lax|strict", 0),
+  ("TaskGroup", "__extra__", "extra:forbid", 0),
+  ("TaskLoadBuffer", "__extra__", "extra:forbid", 0),
   ("TaskPrecedence", "__extra__", "extra:forbid", 0),
   ("TaskPrecedence", "kind", "lit:lax|strict|tight", 0),
   ("TaskPrecedence", "offset", "ge", 0),
+  ("TaskStartAfter", "__extra__", "extra:forbid", 0),
+  ("TaskStartAfter", "kind", "lit:lax|strict", 0),
+  ("TaskStartAt", "__extra__", "extra:forbid", 0),
+  ("TaskUnloadBuffer", "__extra__", "extra:forbid", 0),
+  ("TasksContiguous", "__extra__", "extra:forbid", 0),
+  ("TasksDontOverlap", "__extra__", "extra:forbid", 0),
+  ("TasksEndSynced", "__extra__", "extra:forbid", 0),
+  ("TasksStartSynced", "__extra__", "extra:forbid", 0),
+  ("UnorderedTaskGroup", "__extra__", "extra:forbid", 0),
   ("VariableDurationTask", "__extra__", "extra:forbid", 0),
   ("VariableDurationTask", "allowed_durations", "gt", 0),
   ("VariableDurationTask", "max_duration", "gt", 0),
   ("VariableDurationTask", "min_duration", "ge", 0),
   ("VariableDurationTask", "priority", "ge", 0),
   ("VariableDurationTask", "work_amount", "ge", 0),
+  ("WorkLoad", "__extra__", "extra:forbid", 0),
+  ("WorkLoad", "kind", "lit:exact|max|min", 0),
   ("Worker", "__extra__", "extra:forbid", 0),
   ("Worker", "productivity", "ge", 0),
+  ("Xor", "__extra__", "extra:forbid", 0),
   ("ZeroDurationTask", "__extra__", "extra:forbid", 0),
+  ("ZeroDurationTask", "duration", "lit:0", 0),
   ("ZeroDurationTask", "priority", "ge", 0),
   ("ZeroDurationTask", "work_amount", "ge", 0)
 ]
 
 /-- **TABLE.** The field metadata read from the current source is what the model assumes. -/
-theorem fieldTable_meets_spec : generatedFieldTable = expectedFieldTable := by decide
+theorem fieldTable_meets_spec : generatedFieldTable = expectedFieldTable := by decide +kernel
 
 def Accepted (st : State) (d : Decl) : Prop := (step st d).2 = none
 
